@@ -64,6 +64,23 @@ def main():
     for n in range(0, max_len + 1):
         for ai in (range(len(accs)) if n <= 40 or ck.thorough else [rng.randrange(len(accs))]):
             cases.append((ai, [rand_word() for _ in range(n)]))
+    # history: after a base case, the same framing call with ONE thing changed - the accelerator (same words), one word, or the
+    # length by one word - right after it in this process (a payload memoised by word list, or by length, would be stale there)
+    base_cases, cases = cases, []
+    for ai, ws in base_cases:
+        cases.append((ai, ws))
+        if rng.random() < 0.3:
+            f = rng.choice(["accelerator", "word", "length"] if ws else ["accelerator", "length"])
+            if f == "accelerator":
+                cases.append((rng.choice([a for a in range(len(accs)) if a != ai]), list(ws)))
+            elif f == "word":
+                w2 = list(ws)
+                j = rng.randrange(len(w2))
+                w2[j] ^= 1 << rng.randrange(32)
+                cases.append((ai, w2))
+            else:
+                cases.append((ai, list(ws) + [rand_word()]) if not ws or rng.random() < 0.5 else (ai, list(ws[:-1])))
+            ck.count("sibling_" + f)
     for n in [65535, 65536, 65537] + ([1 << 20, (1 << 22) + 3] if ck.thorough else []):
         cases.append((rng.randrange(len(accs)), [rand_word() for _ in range(n)]))
     # malformed stream: words that do not fit 32 bits
